@@ -108,6 +108,10 @@ theorem rawSetDict_missing_ok (f : Forest) (m : Meta) (its : Items) (k : Key) (h
     ∀ r, rawSetDict Cfg.patched f m its k (.atom .missing) = .ok r → r.1.ok = true := by
   intro r hr
   simp only [rawSetDict, hk, VE.isMissing, isObjKind, Bool.true_and, Bool.not_false, Bool.and_true] at hr
+  by_cases hs : (Option.map (sameAtom (VE.atom Atom.missing)) (getKey its k)).getD false = true
+  · simp only [hs, if_true] at hr
+    cases hr; exact hf
+  simp only [hs] at hr
   by_cases hh : hasKey its k = true
   · simp only [hh, Bool.not_true, if_true] at hr
     simp at hr
